@@ -33,6 +33,7 @@ INIT Init
 NEXT Next
 INVARIANT TypeOK
 INVARIANT SortedIsTopological
+INVARIANT TopoFastAgrees
 INVARIANT CyclicRefused
 INVARIANT AcyclicAccepted
 INVARIANT FixpointWhenIdle
